@@ -2,7 +2,8 @@
 """usage: tools/add_fixed.py <entry-id> <property> <what failed>  -- records HEAD of /repo as the fixing commit"""
 import json, subprocess, sys
 eid, prop, what = sys.argv[1:4]
-sha = subprocess.check_output(['git', '-C', '/repo', 'rev-parse', '--short', 'HEAD'], text=True).strip()
+rev = sys.argv[4] if len(sys.argv) > 4 else "HEAD"
+sha = subprocess.check_output(['git', '-C', '/repo', 'rev-parse', '--short', rev], text=True).strip()
 p = '/verif/known_findings.json'
 d = json.load(open(p))
 d['entries'] = [e for e in d['entries'] if e['id'] != eid]
